@@ -213,6 +213,8 @@ package stgutg
 //@ func RegisterUE
 //@ prop C01
 //@ behavior trace
+//@ call GetInitialUEMessage nas (nasPdu []byte, registrationRequest []byte): vcSameOctets(nasPdu, registrationRequest)
+//@ call GetUplinkNASTransport nas (nasPdu []byte, pdu []byte): vcSameOctets(nasPdu, pdu)
 // the AMF-UE-NGAP-ID of every later uplink message is the one the AMF put first into its first downlink
 // message (the decoded reply is an unknown but fixed structure: the same value is read here and there)
 //@ call GetUplinkNASTransport amfid (amfUeNgapID int64, ngapMsg *ngapType.NGAPPDU): amfUeNgapID == ngapMsg.InitiatingMessage.Value.DownlinkNASTransport.ProtocolIEs.List[0].Value.AMFUENGAPID.Value
@@ -307,6 +309,7 @@ package stgutg
 //@ func EstablishPDU
 //@ prop C02
 //@ behavior trace
+//@ call GetUplinkNASTransport nas (nasPdu []byte, pdu []byte): vcSameOctets(nasPdu, pdu)
 // what is handed to the two extractors is the NAS-PDU and the transfer of the first item of the setup
 // list (third IE) of the decoded PDU SESSION RESOURCE SETUP REQUEST, and their results are returned
 //@ call DecodePDUSessionNASPDU item (PDUSessionNASPDU []byte, msg *ngapType.NGAPPDU): vcSameOctets(PDUSessionNASPDU, msg.InitiatingMessage.Value.PDUSessionResourceSetupRequest.ProtocolIEs.List[2].Value.PDUSessionResourceSetupListSUReq.List[0].PDUSessionNASPDU.Value)
@@ -331,6 +334,7 @@ package stgutg
 //@ func ReleasePDU
 //@ prop C02
 //@ behavior trace
+//@ call GetUplinkNASTransport nas (nasPdu []byte, pdu []byte): vcSameOctets(nasPdu, pdu)
 //@ call GetUlNasTransport_PduSessionReleaseComplete slice (sNssai *models.Snssai, sst int32, sd string): sNssai != nil && sNssai.Sst == sst && sNssai.Sd == sd
 //@ call ManageError completes (err error): err == nil || vc.Faulted()
 //@ shape ue.Supi 20
@@ -366,6 +370,7 @@ package stgutg
 //@ func DeregisterUE
 //@ prop C02
 //@ behavior trace
+//@ call GetUplinkNASTransport nas (nasPdu []byte, pdu []byte): vcSameOctets(nasPdu, pdu)
 //@ call ManageError completes (err error): err == nil || vc.Faulted()
 //@ driver
 //@ assumepre
